@@ -30,7 +30,8 @@ def load_known():
 
 
 class Check:
-    def __init__(self, pid, tier, seed, level):
+    def __init__(self, pid, tier, seed, level, ext=False):
+        self.ext = ext          # extension checks (not one of the listed properties) keep their evidence under evidence/ext/
         self.pid = pid
         self.tier = tier
         self.seed = seed
@@ -114,7 +115,9 @@ class Check:
               "wall_s": round(time.time() - self.t0, 1), "violations": nviol}
         if not cov["samples"]:
             cov["samples"] = ["(no case produced)"]
-        with open(os.path.join(EVID, self.pid + ".json"), "w") as f:
+        edir = os.path.join(EVID, "ext") if self.ext else EVID
+        os.makedirs(edir, exist_ok=True)
+        with open(os.path.join(edir, self.pid + ".json"), "w") as f:
             json.dump(ev, f, indent=1, default=str)
         shutil.rmtree(self.workdir, ignore_errors=True)
         print("%s %s: evaluations=%d distinct_nontrivial=%d states=%d traces=%d violations=%d known=%d wall=%.0fs"
